@@ -1,3 +1,4 @@
+#![allow(static_mut_refs, unused_imports, dead_code, unused_unsafe)]
 // Kani harnesses for src/equipment.rs
 use super::*;
 
